@@ -35,6 +35,7 @@ class C05(Prop):
         c = {"jdd": jdd, "sizes": sizes, "N": N, "chosen": chosen, "picks": picks}
         if rng.random() < 0.3:
             c["warmup"] = rng.randint(1, 7)
+            c["edited"] = rng.random() < 0.5
         if i % 7 == 3:
             c["key_type"] = rng.choice(["uint32", "uint16", "int64"])      # degrees as NumPy integers (keys read off an array)
         return c
@@ -48,7 +49,14 @@ class C05(Prop):
             import numpy as np
             ty = getattr(np, case["key_type"])
             jdd = {tuple(ty(x) for x in k): w for k, w in case["jdd"]}
-        obj = JointDegreeManual({JN.JDD: jdd, JN.MOTIF_SIZES: list(case["sizes"])})
+        if case.get("warmup") and case.get("edited"):
+            # the loader first holds (and is sampled from, below) another distribution; its dictionary is then edited in place to
+            # the case's distribution: a sample follows the distribution the loader holds when it is drawn
+            T = len(case["sizes"])
+            first = {tuple([9] * T): 1, **{k: 3 for k in list(jdd)[:1]}}
+            obj = JointDegreeManual({JN.JDD: first, JN.MOTIF_SIZES: list(case["sizes"])})
+        else:
+            obj = JointDegreeManual({JN.JDD: jdd, JN.MOTIF_SIZES: list(case["sizes"])})
         picks = list(case["picks"])
         chosen_keys = [tuple(case["jdd"][i][0]) for i in case["chosen"]]
 
@@ -83,6 +91,10 @@ class C05(Prop):
             st = random.getstate()
             obj.sample_jds_from_jdd(case["warmup"])
             random.setstate(st)
+            if case.get("edited"):
+                held = obj.jdd
+                held.clear()
+                held.update(jdd)
         with installed(sem):
             out = obj.sample_jds_from_jdd(case["N"])
         obs = {"out": [list(x) for x in out], "types": sorted({type(x).__name__ for x in out}),
